@@ -58,3 +58,18 @@ func TestF20_CustomConstraintWithMixedCaseName(t *testing.T) {
 		t.Fatalf("the handler ran (status %d) although the declared constraint rejects every value", rc.Response.StatusCode())
 	}
 }
+
+// F37: mounting re-parses the sub-app's patterns with the parent's custom constraints only; a constraint
+// registered on the sub-app was silently dropped (unknown names mean "no constraint").
+func TestF37_SubAppConstraintSurvivesMount(t *testing.T) {
+	sub := fiber.New()
+	sub.RegisterCustomConstraint(rejectAll{"never"})
+	ran := false
+	sub.Get("/u/:id<never>", func(c fiber.Ctx) error { ran = true; return nil })
+	root := fiber.New()
+	root.Use("/sub", sub)
+	rc := do(root, "GET", "/sub/u/bob")
+	if ran || rc.Response.StatusCode() != 404 {
+		t.Fatalf("mounted: handler ran=%v status=%d although the constraint rejects every value", ran, rc.Response.StatusCode())
+	}
+}
